@@ -260,67 +260,109 @@ def direct_oracle(ctx, case, records, state):
             return
 
 
-def real_family_sessions(ctx, pexpect, n, use_async):
-    """sessions on a real child (harness/fake_repl.py) behind a pty: real reads, real chunking, sync or awaited"""
+def short(t):
+    if isinstance(t, tuple):
+        return t if len(repr(t)) < 200 else (repr(t)[:90] + '...' + repr(t)[-90:] + (' (%d chars)' % len(t[1]) if len(t) > 1 else ''))
+    return t if not isinstance(t, str) or len(t) < 160 else (t[:70] + '...' + t[-70:] + ' (%d chars)' % len(t))
+
+
+def confirm(ctx, key, what, data, again, tries=3):
+    """A mismatch seen on a REAL child depends on more than pexpect: on the child process (CPython's own REPL loses an interrupt
+    that arrives between printing its prompt and entering select(): measured here about once in 40 000 interrupts), on the kernel
+    and on the host's clock and scheduler.  What is reported as a failing input must fail when it is replayed: the same session
+    (same child seed, same commands, same mode) is run again on fresh children, and the mismatch is reported if ANY replay
+    fails too; one that never repeats is recorded in the evidence (direct_oracle.unconfirmed_transients), not reported."""
+    if os.environ.get('VERIF_CONFIRM_CHILD'):
+        ctx.hit(key, what, data)          # this run is itself the replay of an earlier one (harness/check.py confirm_hits)
+        return True
+    fails = []
+    for _ in range(tries):
+        r = again()
+        if r is not None:
+            fails.append(r)
+    if fails:
+        data = dict(data, replays_failed='%d of %d' % (len(fails), tries))
+        ctx.hit(key, what + '  [replayed: failed again in %d of %d replays of the same session]' % (len(fails), tries), data)
+        return True
+    ctx.transient(key, what, data, tries)
+    return False
+
+
+def family_session(pexpect, seed, cmds, use_async):
+    """one session on a fresh real child (harness/fake_repl.py) behind a pty -> (mismatch or None, commands done);
+    mismatch = (command, got, want)"""
     from pexpect import replwrap
-    rng = ctx.rng
     here = os.path.dirname(os.path.abspath(__file__))
     script = os.path.join(os.path.dirname(here), 'fake_repl.py')
+    prompt, cont = DEFAULT
     done = 0
-    for it in range(n):
-        prompt, cont = DEFAULT
-        seed = rng.randint(0, 10 ** 6)
-        child = pexpect.spawn(sys.executable, [script, prompt, cont, '$', str(seed)], echo=False, encoding='utf-8', timeout=20)
-        m = Machine(prompt, cont)
+    child = pexpect.spawn(sys.executable, [script, prompt, cont, '$', str(seed)], echo=False, encoding='utf-8', timeout=20)
+    m = Machine(prompt, cont)
+    try:
         try:
             w = replwrap.REPLWrapper(child, r'\$', 'eset', new_prompt=prompt, continuation_prompt=cont)
-            m.step('eset')
-            child.timeout = 1.2          # the default of the spawn object is short: run_command is given its own, longer timeout
-            cmds = []
-            for _ in range(rng.randint(3, 7)):
-                x = rng.random()
-                if x < 0.2:
-                    big = rng.choice(['x', 'é€', 'abü', '0123456789'])
-                    cmds.append('r%d,%s' % (rng.choice([100, 3000, 20000, 60000]) // len(big), big))
-                elif x < 0.3:
-                    cmds.append('(\nr%d,%s\nezz\n)' % (rng.choice([500, 8000]), rng.choice(['q', 'é'])))
-                elif x < 0.36 and not any('w' == c_[:1] or '\nw' in c_ for c_ in cmds):
-                    cmds.append('(\nw\nehello\n)')          # an intermediate line slower than the object's default timeout
-                else:
-                    cmds.append(gen_command(rng, True))
-            if it == 0:
-                cmds.insert(1, '(\nw\nehello\n)')          # always once: an intermediate line slower than the object's default timeout
+        except (pexpect.TIMEOUT, pexpect.EOF) as e:
+            return ('<REPLWrapper(child, prompt change)>', ('failed', type(e).__name__), ('ret', 'a wrapper at the new prompt')), done
+        m.step('eset')
+        child.timeout = 1.2          # the default of the spawn object is short: run_command is given its own, longer timeout
 
-            async def arun(c):
-                return await w.run_command(c, timeout=20, async_=True)
-            loop = asyncio.new_event_loop() if use_async else None
-            try:
-                for c in cmds:
-                    if any(s in c for s in ('\r', '\x0b', '\x0c', '\x1c', '\x1d', '\x1e', '\x85', ' ', ' ')):
-                        continue                    # the line discipline of a real terminal treats some of these specially
-                    want = spec_command(m, c)
-                    try:
-                        if use_async and py_cmdlines(c):
-                            got = ('ret', loop.run_until_complete(arun(c)))
-                        else:
-                            got = ('ret', w.run_command(c, timeout=20))
-                    except ValueError as e:
-                        got = ('nocommand',) if 'No command' in str(e) else ('incomplete',)
-                    except (pexpect.TIMEOUT, pexpect.EOF) as e:
-                        got = ('failed', type(e).__name__)
-                    if got != want:
-                        short = lambda t: t if len(repr(t)) < 200 else (repr(t)[:90] + '...' + repr(t)[-90:] + ' (%d chars)' % len(t[1]) if len(t) > 1 else '')
-                        ctx.hit('C16/real-family-%s' % ('async' if use_async else 'sync'),
-                                'real child (seed %d), commands %r: %s of %r gave %s, its own output is %s' %
-                                (seed, [x[:40] for x in cmds], 'await run_command(async_=True)' if use_async else 'run_command', c[:60], short(got), short(want)),
-                                {'seed': seed, 'cmds': cmds, 'async': use_async})
-                        return
-                    done += 1
-            finally:
-                if loop is not None:
-                    loop.close()
+        async def arun(c):
+            return await w.run_command(c, timeout=20, async_=True)
+        loop = asyncio.new_event_loop() if use_async else None
+        try:
+            for c in cmds:
+                if any(s in c for s in ('\r', '\x0b', '\x0c', '\x1c', '\x1d', '\x1e', '\x85', ' ', ' ')):
+                    continue                    # the line discipline of a real terminal treats some of these specially
+                want = spec_command(m, c)
+                try:
+                    if use_async and py_cmdlines(c):
+                        got = ('ret', loop.run_until_complete(arun(c)))
+                    else:
+                        got = ('ret', w.run_command(c, timeout=20))
+                except ValueError as e:
+                    got = ('nocommand',) if 'No command' in str(e) else ('incomplete',)
+                except (pexpect.TIMEOUT, pexpect.EOF) as e:
+                    got = ('failed', type(e).__name__)
+                if got != want:
+                    return (c, got, want), done
+                done += 1
         finally:
-            child.close(force=True)
+            if loop is not None:
+                loop.close()
+    finally:
+        child.close(force=True)
+    return None, done
+
+
+def real_family_sessions(ctx, pexpect, n, use_async):
+    """sessions on a real child (harness/fake_repl.py) behind a pty: real reads, real chunking, sync or awaited"""
+    rng = ctx.rng
+    done = 0
+    for it in range(n):
+        seed = rng.randint(0, 10 ** 6)
+        cmds = []
+        for _ in range(rng.randint(3, 7)):
+            x = rng.random()
+            if x < 0.2:
+                big = rng.choice(['x', 'é€', 'abü', '0123456789'])
+                cmds.append('r%d,%s' % (rng.choice([100, 3000, 20000, 60000]) // len(big), big))
+            elif x < 0.3:
+                cmds.append('(\nr%d,%s\nezz\n)' % (rng.choice([500, 8000]), rng.choice(['q', 'é'])))
+            elif x < 0.36 and not any('w' == c_[:1] or '\nw' in c_ for c_ in cmds):
+                cmds.append('(\nw\nehello\n)')          # an intermediate line slower than the object's default timeout
+            else:
+                cmds.append(gen_command(rng, True))
+        if it == 0:
+            cmds.insert(1, '(\nw\nehello\n)')          # always once: an intermediate line slower than the object's default timeout
+        bad, k = family_session(pexpect, seed, cmds, use_async)
+        done += k
+        if bad is not None:
+            c, got, want = bad
+            if confirm(ctx, 'C16/real-family-%s' % ('async' if use_async else 'sync'),
+                       'real child (seed %d), commands %r: %s of %r gave %s, its own output is %s' %
+                       (seed, [x[:40] for x in cmds], 'await run_command(async_=True)' if use_async else 'run_command', c[:60], short(got), short(want)),
+                       {'seed': seed, 'cmds': cmds, 'async': use_async}, lambda: family_session(pexpect, seed, cmds, use_async)[0]):
+                break
     ctx.oracle_stats['real_family_%s_commands' % ('async' if use_async else 'sync')] = done
 
 
@@ -346,55 +388,73 @@ PY_CMDS = [
 ]
 
 
-def real_repls(ctx, pexpect, rounds, use_async):
+def repl_session(pexpect, kind, plan, use_async):
+    """one session on a fresh real bash / python -> (mismatch or None, commands done) or ('unavailable', reason);
+    plan = [(command, its output | ValueError)]; mismatch = (index, command, got, want)"""
     from pexpect import replwrap
+    try:
+        w = replwrap.bash() if kind == 'bash' else replwrap.python(sys.executable)
+    except Exception as e:
+        return 'unavailable', repr(e)[:100]
+    w.child.timeout = 30
+    loop = asyncio.new_event_loop() if use_async else None
+    done = 0
+    try:
+        async def arun(c):
+            return await w.run_command(c, async_=True)
+        for i, (cmd, want) in enumerate(plan):
+            try:
+                got = loop.run_until_complete(arun(cmd)) if use_async else w.run_command(cmd)
+            except ValueError:
+                got = ValueError
+            except (pexpect.TIMEOUT, pexpect.EOF) as e:
+                got = type(e).__name__
+            if got != want:
+                return (i, cmd, got, want), done
+            done += 1
+    finally:
+        if loop is not None:
+            loop.close()
+        w.child.close(force=True)
+    return None, done
+
+
+def real_repls(ctx, pexpect, rounds, use_async):
     rng = ctx.rng
     done = 0
     for kind in ('bash', 'python'):
-        try:
-            w = replwrap.bash() if kind == 'bash' else replwrap.python(sys.executable)
-        except Exception as e:
-            ctx.oracle_stats['real_%s_unavailable' % kind] = repr(e)[:100]
-            continue
-        w.child.timeout = 30
-        loop = asyncio.new_event_loop() if use_async else None
-        try:
-            history = []
-            for it in range(rounds):
-                x = rng.random()
-                word = rng.choice(['alpha', 'Zz9', 'héllo', 'x' * 50, 'PEXPECT', 'PROMPT'])
-                if x < 0.15:
-                    n = rng.choice([2000, 40000, 150000])
-                    if kind == 'bash':
-                        cmd, want = "printf 'é€%%.0s' {1..%d}" % n, 'é€' * n
-                    else:
-                        cmd, want = "print('é€' * %d, end='')" % n, 'é€' * n
-                elif x < 0.3:
-                    cmd, want = ("echo 'unterminated %s" % word if kind == 'bash' else "for i in range(2):\n    print(%r)" % word), ValueError
+        plan = []
+        for it in range(rounds):
+            x = rng.random()
+            word = rng.choice(['alpha', 'Zz9', 'héllo', 'x' * 50, 'PEXPECT', 'PROMPT'])
+            if x < 0.15:
+                n = rng.choice([2000, 40000, 150000])
+                if kind == 'bash':
+                    cmd, want = "printf 'é€%%.0s' {1..%d}" % n, 'é€' * n
                 else:
-                    mk, exp = rng.choice(BASH_CMDS if kind == 'bash' else PY_CMDS)
-                    cmd, want = mk(word), exp(word)
-                history.append(cmd[:50])
+                    cmd, want = "print('é€' * %d, end='')" % n, 'é€' * n
+            elif x < 0.3:
+                cmd, want = ("echo 'unterminated %s" % word if kind == 'bash' else "for i in range(2):\n    print(%r)" % word), ValueError
+            else:
+                mk, exp = rng.choice(BASH_CMDS if kind == 'bash' else PY_CMDS)
+                cmd, want = mk(word), exp(word)
+            plan.append((cmd, want))
+        bad, k = repl_session(pexpect, kind, plan, use_async)
+        if bad == 'unavailable':
+            ctx.oracle_stats['real_%s_unavailable' % kind] = k
+            continue
+        done += k
+        if bad is not None:
+            i, cmd, got, want = bad
+            history = [c[:50] for c, _ in plan[:i]]
 
-                async def arun(c):
-                    return await w.run_command(c, async_=True)
-                try:
-                    got = loop.run_until_complete(arun(cmd)) if use_async else w.run_command(cmd)
-                except ValueError:
-                    got = ValueError
-                except (pexpect.TIMEOUT, pexpect.EOF) as e:
-                    got = type(e).__name__
-                if got != want:
-                    short = lambda t: t if not isinstance(t, str) or len(t) < 160 else (t[:70] + '...' + t[-70:] + ' (%d chars)' % len(t))
-                    ctx.hit('C16/real-%s-%s' % (kind, 'async' if use_async else 'sync'),
-                            '%s REPL, after %r: %s(%r) gave %r, its own output is %r' % (kind, history[:-1], 'await run_command' if use_async else 'run_command',
-                                                                                      cmd[:70], short(got), short(want)), {'history': history})
-                    break
-                done += 1
-        finally:
-            if loop is not None:
-                loop.close()
-            w.child.close(force=True)
+            def again():
+                r = repl_session(pexpect, kind, plan, use_async)[0]
+                return None if r == 'unavailable' else r
+            confirm(ctx, 'C16/real-%s-%s' % (kind, 'async' if use_async else 'sync'),
+                    '%s REPL, after %r: %s(%r) gave %r, its own output is %r' % (kind, history, 'await run_command' if use_async else 'run_command',
+                                                                              cmd[:70], short(got), short(want)),
+                    {'kind': kind, 'async': use_async, 'plan': [(c, w if isinstance(w, str) else 'ValueError') for c, w in plan]}, again)
     ctx.oracle_stats['real_repl_commands_%s' % ('async' if use_async else 'sync')] = done
 
 
